@@ -21,6 +21,18 @@ pub fn str_starts_with(s: &String, prefix: &str) -> (r: bool)
     ensures r == (prefix@.len() <= s@.len() && s@.subrange(0, prefix@.len() as int) == prefix@)
 { s.starts_with(prefix) }
 
+#[verifier::external_body]
+pub fn strref_starts_with(s: &str, prefix: &str) -> (r: bool)
+    ensures r == (prefix@.len() <= s@.len() && s@.subrange(0, prefix@.len() as int) == prefix@)
+{ s.starts_with(prefix) }
+#[verifier::external_body]
+pub fn strref_ends_with(s: &str, suffix: &str) -> (r: bool)
+    ensures r == (suffix@.len() <= s@.len() && s@.subrange(s@.len() - suffix@.len(), s@.len() as int) == suffix@)
+{ s.ends_with(suffix) }
+pub uninterp spec fn contains_spec(s: Seq<char>, t: Seq<char>) -> bool;
+#[verifier::external_body]
+pub fn strref_contains(s: &str, t: &str) -> (r: bool) ensures r == contains_spec(s@, t@) { s.contains(t) }
+
 // canonical u32 parse of str::parse::<u32> (proved complete for 1-10 digit inputs by the Kani harness, see kani/)
 pub uninterp spec fn parse_u32_spec(b: Seq<u8>) -> Option<u32>;
 #[verifier::external_body]
